@@ -1,8 +1,9 @@
-import BrushVerif.Model.Wire
-/-! Driver for C05 (stub until the property's model exists). -/
+import BrushVerif.Drv.C04
+/-! Driver for C05: same wire format and handler as C04 (`Drv/C04.lean`); C05 requests use mode `Kb`
+(brush-mirroring model result, then the reference semantics `WordExp.specExpandB`). -/
 namespace BrushVerif.Drv.C05
 open BrushVerif.Wire
 
-def handle (_toks : List Str) : Str := "unimplemented".toList
+def handle (toks : List Str) : Str := BrushVerif.Drv.C04.handle toks
 
 end BrushVerif.Drv.C05
